@@ -48,20 +48,35 @@ def detect(pid, tier="quick", stop_first=True):
 
 
 if __name__ == "__main__":
+    # default: apply to /repo, run, undo (as the brief prescribes).  SEED_WORKTREE=1: apply in a scratch worktree under /tmp and point the
+    # interpreter at its sources instead (used only while a long check run is reading /repo); the worktree is removed afterwards.
     pid, i = sys.argv[1], sys.argv[2]
     checks = sys.argv[3:] or [pid]
     patch = f"/verif/seeded/{pid}-{i}/patch.diff"
-    p = subprocess.run(["git", "-C", "/repo", "apply", patch], capture_output=True, text=True)
+    scratch = os.environ.get("SEED_WORKTREE") == "1"
+    root = "/repo"
+    if scratch:
+        root = f"/tmp/wt_seedrun_{os.getpid()}"
+        p = subprocess.run(["git", "-C", "/repo", "worktree", "add", "--detach", root, "HEAD"], capture_output=True, text=True)
+        if p.returncode:
+            print(json.dumps({"error": p.stderr}))
+            sys.exit(2)
+    p = subprocess.run(["git", "-C", root, "apply", patch], capture_output=True, text=True)
     if p.returncode:
         print(json.dumps({"error": p.stderr}))
+        if scratch:
+            subprocess.run(["git", "-C", "/repo", "worktree", "remove", "--force", root])
         sys.exit(2)
     out = {}
     try:
         for c in checks:
-            code = f"import sys; sys.path[:0]=['/verif','/repo/src']; from vp import seedrun; import json; print('@@'+json.dumps(seedrun.detect({c!r}), default=str))"
-            q = subprocess.run(["/verif/.venv/bin/python", "-c", code], capture_output=True, text=True, env=dict(os.environ, PYTHONHASHSEED="0", PYTHONPATH="/verif:/repo/src"))
+            code = f"import sys; sys.path[:0]=['/verif',{root + '/src'!r}]; import stereomolgraph; assert stereomolgraph.__file__.startswith({root!r}); from vp import seedrun; import json; print('@@'+json.dumps(seedrun.detect({c!r}), default=str))"
+            q = subprocess.run(["/verif/.venv/bin/python", "-c", code], capture_output=True, text=True, env=dict(os.environ, PYTHONHASHSEED="0", PYTHONPATH=f"/verif:{root}/src"))
             line = [l for l in q.stdout.split("\n") if l.startswith("@@")]
             out[c] = json.loads(line[0][2:]) if line else {"error": (q.stdout + q.stderr)[-500:]}
     finally:
-        subprocess.run(["git", "-C", "/repo", "checkout", "--", "."])
+        if scratch:
+            subprocess.run(["git", "-C", "/repo", "worktree", "remove", "--force", root])
+        else:
+            subprocess.run(["git", "-C", "/repo", "checkout", "--", "."])
     print(json.dumps({"seed": f"{pid}-{i}", "results": out}))
